@@ -144,7 +144,7 @@ impl PartialEq for Rule {
 
 impl Hash for Rule {
     fn hash<H: Hasher>(&self, state: &mut H) {
-        self.id.hash(state);
+        // must agree with `PartialEq`, which ignores the `id`
         self.resource.hash(state);
     }
 }
